@@ -125,7 +125,15 @@ func (x *g) sleep() Call {
 
 // look-alikes that are none of the evidence patterns
 func (x *g) lookalike() Call {
-	switch x.r.Intn(6) {
+	switch x.r.Intn(10) {
+	case 6: // receivers that merely contain the evidence receiver's name
+		return call([]string{"FakeClockThread", "ThreadUtil", "worker", "MyThread"}[x.r.Intn(4)], "sleep", lit("500"))
+	case 7:
+		return call([]string{"MySystem.out", "System.outer", "Systemx.out"}[x.r.Intn(3)], "println", lit(x.atom()))
+	case 8:
+		return call("Thread", "sleepy", lit("1"))
+	case 9:
+		return call("System.out", "printer", lit(x.atom()))
 	case 0:
 		return call("System.out", "flush")
 	case 1:
